@@ -5,8 +5,10 @@
 -/
 import FlacModel.Model.Metadata
 import FlacModel.Gen.ShapesEnc
+import FlacModel.Gen.Finalize
 
 namespace Flac
+open Gen
 
 structure EncPoint where
   sample : Nat
@@ -57,10 +59,10 @@ def Interval.filter (iv : Interval) (rate : Nat) (pts : List EncPoint) : List En
   | .seconds s => secondsFilter (s * rate) 0 pts
   | .frames n => stepBy n 0 pts
 
-/-- `EncoderSeekPoint::placeholders(total, block_size)` as (sample, len) pairs (byte = 0) -/
+/-- `EncoderSeekPoint::placeholders(total, block_size)` as (sample, len) pairs (byte = 0); the frame length rule is regenerated from the source -/
 def placeholders (total bs : Nat) : Nat → Nat → List EncPoint
   | 0, _ => []
-  | fuel+1, off => if off < total then { sample := off, byte := 0, len := min bs (total - off) } :: placeholders total bs fuel (off + bs) else []
+  | fuel+1, off => if off < total then { sample := off, byte := 0, len := encPlaceholderLen bs (total - off) } :: placeholders total bs fuel (off + bs) else []
 
 def maxPoints : Nat := 2 ^ 24 / 18
 
